@@ -240,7 +240,7 @@ func (g *gj) number() string {
 	case x == 17:
 		s = g.of("1,234", "1.234", "0.234", "0,234", "-0,123", "12,345", "1,23", "1.2.3", "1,2,3", "1.2,3.4", "1,2.3,4", ".5", ",5", "1..2", "1,,2", "0", "00", "000.000", "1 234", "1 2 3")
 	case x == 18:
-		s = g.of("1E999999999", "1e99999999999", "1E", "1e+", "1E-2147483648", "1.5E-2147483648", "1E2147483647", "1E2147483648", "999999999999999999", "9999999999999999999", "123456789012345678901234567890", "1e5e3", "1E1.5")
+		s = g.of("1E999999999", "1e99999999999", "1E", "1e+", "1E-2147483648", "1.5E-2147483648", "1E2147483647", "1E2147483648", "999999999999999999", "9999999999999999999", "123456789012345678901234567890", "1e5e3", "1E1.5", "1E1000", "1E1001", "1E-1000", "1E-1001", "1.5E-1000", "1.5E1001", "1,5E1000", "0.000E-998", "1.234E1003")
 	default:
 		s = intd + "." + frac
 	}
@@ -641,6 +641,7 @@ var fixedJournals = []string{
 	"2024-01-15 x\n  a:b  1 USD junk junk\n  c:d\n",
 	"2024-01-15 x\n  !!bad\n\n  a:b  1\n2024-01-16 y\n  a:b  2\n",
 	"2024-01-15 x\n  (a:b  1\n  [c:d)  2\n  (e:f]\n",
+	"2024-01-15 x\n  a:b  1E1000 USD\n  a:b  1E1001 USD\n  a:b  1.5E-1000\n  a:b  $1E-1001\n  a:b  1.5E3\n  a:b  1,5e3 EUR\n",
 	"2024-01-15 x\n  a:b  - $ - 5\n  a:b  + 5\n  a:b  -$-5\n  a:b  $+5\n  a:b  --5\n  a:b  1E999999999 USD\n  a:b  1,5 руб\n  a:b  5 x1\n  a:b  5 1x\n  a:b  5 x-1\n",
 	"2024-01-15\n2024-01-15 |\n2024-01-15 a |\n2024-01-15 | b\n2024-01-15  a  |  b  ; c\n",
 	"; top comment a:b, c:d\n# hash\n* star\n;\n;:\n;a:,:b,c:\n; date:2024, date:2025, date:2024\n; x:date:, date:x\n",
